@@ -108,6 +108,10 @@ func shapedPoly(shape string, t int, rootAt int, rng *rand.Rand) refPoly {
 				c[i] = new(big.Int).Sub(ref.R, big.NewInt(1))
 			}
 		}
+	case "horner-double": // a_(t-1) = x * a_t at x = rootAt+1: the Horner evaluation at x adds a point to itself in its first step
+		if t >= 1 {
+			c[t-1] = new(big.Int).Mod(new(big.Int).Mul(big.NewInt(int64(rootAt+1)), c[t]), ref.R)
+		}
 	case "root": // P(x) = (x - (rootAt+1)) * Q(x), Q generic of degree t-1
 		q := c[:t]
 		x0 := big.NewInt(int64(rootAt + 1))
@@ -208,7 +212,16 @@ func RunRefDeal(c RefDealCase) (res RefDealResult) {
 		return
 	}
 	rng := rand.New(rand.NewSource(c.Seed))
-	poly := shapedPoly(c.Shape, c.T, c.Silent, rng)
+	target := c.Silent
+	if c.Shape == "horner-double" { // the special point is the one of the first REAL receiver
+		for i := 0; i < c.N; i++ {
+			if i != c.Dealer && i != c.Silent {
+				target = i
+				break
+			}
+		}
+	}
+	poly := shapedPoly(c.Shape, c.T, target, rng)
 	// the library's own dealer guarantees a_0 != 0 and a_t != 0 (dkg_feldmanvss.go: generateFrPolynomial); a polynomial without one of
 	// them is dealt consistently but is not one an honest dealer produces: receivers may accept it or disqualify its dealer, as long
 	// as they all do the same and the keys of those who accept are the images of the qualified vectors
@@ -272,7 +285,10 @@ func RunRefDeal(c RefDealCase) (res RefDealResult) {
 			return
 		}
 	}
-	if byzantine && c.Relation != "two-answers-before-vector" && c.Relation != "answer-complaint-vector" { // the shares must really be off the committed polynomial at every real receiver
+	if c.Relation == "const-at-target" && (poly.coef[0].Sign() == 0 || poly.coef[0].Cmp(poly.eval(int64(target+1))) == 0) {
+		return
+	}
+	if byzantine && c.Relation != "two-answers-before-vector" && c.Relation != "answer-complaint-vector" && c.Relation != "const-at-target" { // the shares must really be off the committed polynomial at every real receiver
 		for _, m := range real {
 			if sharePoly.eval(int64(m+1)).Cmp(poly.eval(int64(m+1))) == 0 {
 				return
@@ -317,6 +333,11 @@ func RunRefDeal(c RefDealCase) (res RefDealResult) {
 	if c.Relation == "answer-complaint-vector" {
 		sharePoly = poly
 	}
+	override := map[int]*big.Int{} // receiver -> the share (and answer) it gets instead of sharePoly's value
+	if c.Relation == "const-at-target" {
+		sharePoly = poly
+		override[target] = new(big.Int).Set(poly.coef[0]) // a_0 instead of P(x): what an evaluation that loses its first Horner step yields
+	}
 	wrongAnswerTo := -1
 	if c.Relation == "two-answers-before-vector" {
 		// two receivers get a malformed share and complain; the dealer answers both BEFORE broadcasting its vector, one answer right,
@@ -326,6 +347,12 @@ func RunRefDeal(c RefDealCase) (res RefDealResult) {
 		}
 		sharePoly = poly
 		wrongAnswerTo = real[1]
+	}
+	shareOf := func(m int) []byte {
+		if v, ok := override[m]; ok {
+			return append([]byte{0}, scalar32(v)...)
+		}
+		return sharePoly.shareMsg(m)
 	}
 	// the real participants' own dealing (Joint-Feldman) and whatever else they emit; the reference dealer answers complaints
 	// against it correctly (there should be none)
@@ -356,6 +383,9 @@ func RunRefDeal(c RefDealCase) (res RefDealResult) {
 							}
 						}
 						ans := sharePoly.answerMsg(s)
+						if v, ok := override[s]; ok {
+							ans = append([]byte{3, byte(s)}, scalar32(v)...)
+						}
 						if s == wrongAnswerTo { // a well-formed scalar that is not the share
 							ans = append([]byte{3, byte(s)}, scalar32(new(big.Int).Mod(new(big.Int).Add(sharePoly.eval(int64(s+1)), big.NewInt(1)), ref.R))...)
 						}
@@ -418,7 +448,7 @@ func RunRefDeal(c RefDealCase) (res RefDealResult) {
 			hand(m, c.Dealer, true, vectors[c.Dealer])
 		}
 		for _, m := range real[2:] {
-			hand(m, c.Dealer, false, sharePoly.shareMsg(m))
+			hand(m, c.Dealer, false, shareOf(m))
 		}
 	} else {
 		// the reference dealer's messages, in the chosen order
@@ -429,10 +459,10 @@ func RunRefDeal(c RefDealCase) (res RefDealResult) {
 			}
 			if first {
 				hand(m, c.Dealer, true, vectors[c.Dealer])
-				hand(m, c.Dealer, false, sharePoly.shareMsg(m))
+				hand(m, c.Dealer, false, shareOf(m))
 			}
 			if second {
-				hand(m, c.Dealer, false, sharePoly.shareMsg(m))
+				hand(m, c.Dealer, false, shareOf(m))
 				hand(m, c.Dealer, true, vectors[c.Dealer])
 			}
 		}
